@@ -475,6 +475,11 @@ func longRouting(kind string, c ctor) {
 	kit.Must("Close", func() { _ = s.Close() })
 }
 
+// RespondentHist / XRespondentHist are also run under C07 (each RESPONDENT answer reaches only the
+// surveyor that asked).
+func RespondentHist(depth int)  { hist(respondent.NewSocket, depth) }
+func XRespondentHist(depth int) { rawHist(xrespondent.NewSocket, depth) }
+
 // take removes the queued request with this body; only a head of a per-pipe queue may be returned.
 func (w *world) take(body string) *request {
 	for pi, q := range w.queue {
